@@ -40,7 +40,8 @@ def cases(ctx):
         sc, ec = gen.cfg(rng)
         grouped = bool(rng.random() < 0.25)
         yield {"pos": pos, "neg": neg, "ep": 0 if grouped else ep, "en": 0 if grouped else en, "sc": sc, "ec": ec, "kind": kind, "grouped": grouped,
-               "L": int(rng.integers(20, 51)), "_seed": int(rng.integers(1 << 31))}
+               "L": int(rng.integers(20, 51)), "_seed": int(rng.integers(1 << 31)),
+               "pw_big": [(300, 300), (1000, 70), (129, 509)][i] if i < 3 else None}  # three large pointwise problems per run (beyond 2**16 pairs, sizes that divide nothing)
 
 
 def _equal(a, b):
@@ -203,6 +204,19 @@ def execute(ctx, case):
             one = pointwise_cm(labels, sv, x, score_class=sc, equal_class=ec)
             C(one.shape == (len(sv), 2, 2) and np.array_equal(one, pwv[:, j]), "pointwise_cm: an element of the vectorised result differs from the scalar call on that element",
               "hist-pw-elementwise", threshold=float(tv[j]), form=form, scores_dtype=str(sv.dtype))
+    if case.get("pw_big"):
+        nS, nT = case["pw_big"]
+        bs = rng.normal(0, 1, nS).round(2)  # ties between scores and thresholds
+        bl = rng.integers(0, 2, nS)
+        bt = np.concatenate([rng.choice(bs, nT // 2), rng.normal(0, 1, nT - nT // 2)])
+        big = pointwise_cm(bl, bs, bt, score_class=sc, equal_class=ec)  # judged by M-pw (membership by the decision rule, every pair)
+        again = pointwise_cm(bl, bs, bt, score_class=sc, equal_class=ec)
+        C(np.array_equal(big, again), "pointwise_cm: a repeated call returned a different result", "hist-pw-repeat", sizes=[nS, nT])
+        ref_s = Scores(bs[bl == 1], bs[bl == 0], score_class=sc, equal_class=ec)
+        C(np.array_equal(big.sum(axis=0), ref_s.cm(bt).matrix), "pointwise_cm summed over samples differs from Scores.cm (large problem)", "hist-pw-sum", sizes=[nS, nT])
+        j_ = int(rng.integers(0, nT))
+        C(np.array_equal(big[:, j_], pointwise_cm(bl, bs, float(bt[j_]), score_class=sc, equal_class=ec)) and np.array_equal(big[:, -1], pointwise_cm(bl, bs, float(bt[-1]), score_class=sc, equal_class=ec)),
+          "pointwise_cm: an element of the vectorised result differs from the scalar call on that element (large problem)", "hist-pw-elementwise", sizes=[nS, nT], index=j_)
     # ConfusionMatrix queries (binary, from cm(); and a multiclass one): judged by M-state, repeated queries identical
     from score_analysis import ConfusionMatrix
 
